@@ -5,7 +5,7 @@ This is used by :class:`graphtage.MultiSetNode` and :class:`graphtage.DictNode`,
 
 """
 
-from typing import Iterator, List
+from typing import Iterator, List, Tuple
 
 import graphtage
 from .bounds import Range
@@ -13,7 +13,7 @@ from .edits import Insert, Match, Remove
 from .matching import WeightedBipartiteMatcher
 from .sequences import SequenceEdit, SequenceNode
 from .tree import Edit, TreeNode
-from .utils import HashableCounter, largest
+from .utils import HashableCounter, largest, smallest
 
 
 class MultiSetEdit(SequenceEdit):
@@ -86,18 +86,24 @@ class MultiSetEdit(SequenceEdit):
     def is_complete(self) -> bool:
         return self._matcher.is_complete()
 
+    def _unmatched(self) -> Tuple[HashableCounter[TreeNode], HashableCounter[TreeNode]]:
+        """Returns the nodes to be removed and inserted that are left over by the (completed) matching"""
+        remove_matched: HashableCounter[TreeNode] = HashableCounter()
+        insert_matched: HashableCounter[TreeNode] = HashableCounter()
+        for (rem, (ins, _)) in self._matcher.matching.items():
+            remove_matched[rem] += 1
+            insert_matched[ins] += 1
+        return self.to_remove - remove_matched, self.to_insert - insert_matched
+
     def edits(self) -> Iterator[Edit]:
         yield from self._edits
         yield from self._matched_kvp_edits
-        remove_matched: HashableCounter[TreeNode] = HashableCounter()
-        insert_matched: HashableCounter[TreeNode] = HashableCounter()
-        for (rem, (ins, edit)) in self._matcher.matching.items():
+        for (_, (_, edit)) in self._matcher.matching.items():
             yield edit
-            remove_matched[rem] += 1
-            insert_matched[ins] += 1
-        for rm in (self.to_remove - remove_matched).elements():
+        unmatched_removes, unmatched_inserts = self._unmatched()
+        for rm in unmatched_removes.elements():
             yield Remove(to_remove=rm, remove_from=self.from_node)
-        for ins in (self.to_insert - insert_matched).elements():
+        for ins in unmatched_inserts.elements():
             yield Insert(to_insert=ins, insert_into=self.from_node)
 
     def tighten_bounds(self) -> bool:
@@ -109,20 +115,33 @@ class MultiSetEdit(SequenceEdit):
 
     def bounds(self) -> Range:
         b = self._matcher.bounds()
+        matching_is_final = self._matcher.is_complete() or b.definitive()
         for kvp_edit in self._matched_kvp_edits:
             b = b + kvp_edit.bounds()
-        if len(self.to_remove) > len(self.to_insert):
-            for edit in largest(
-                    *(Remove(to_remove=r, remove_from=self.from_node) for r in self.to_remove),
-                    n=len(self.to_remove) - len(self.to_insert),
-                    key=lambda e: e.bounds()
-            ):
-                b = b + edit.bounds()
-        elif len(self.to_remove) < len(self.to_insert):
-            for edit in largest(
-                    *(Insert(to_insert=i, insert_into=self.from_node) for i in self.to_insert),
-                    n=len(self.to_insert) - len(self.to_remove),
-                    key=lambda e: e.bounds()
-            ):
-                b = b + edit.bounds()
-        return b
+        if matching_is_final:
+            # The matching is known (or the matcher has nothing left to tighten, in which case self._unmatched() computes
+            # it), so add the cost of exactly the removals and insertions that edits() will yield
+            unmatched_removes, unmatched_inserts = self._unmatched()
+            for rm in unmatched_removes.elements():
+                b = b + Remove(to_remove=rm, remove_from=self.from_node).bounds()
+            for ins in unmatched_inserts.elements():
+                b = b + Insert(to_insert=ins, insert_into=self.from_node).bounds()
+            return b
+        # The matching is not yet known: the surplus nodes will be removed (or inserted), but we do not yet know which
+        num_remove = sum(self.to_remove.values())
+        num_insert = sum(self.to_insert.values())
+        if num_remove > num_insert:
+            surplus = [
+                Remove(to_remove=r, remove_from=self.from_node).bounds().upper_bound for r in self.to_remove.elements()
+            ]
+        elif num_remove < num_insert:
+            surplus = [
+                Insert(to_insert=i, insert_into=self.from_node).bounds().upper_bound for i in self.to_insert.elements()
+            ]
+        else:
+            return b
+        n = abs(num_remove - num_insert)
+        return Range(
+            b.lower_bound + sum(smallest(surplus, n=n)),
+            b.upper_bound + sum(largest(surplus, n=n))
+        )
